@@ -72,6 +72,27 @@ Theorem C38_exchange_cancel_once_plus_413 : forall st fs ext_ok,
 Proof. intros st fs ext_ok. split; [apply exchange_once_plus_413 | apply cancel_once]. Qed.
 Print Assumptions C38_exchange_cancel_once_plus_413.
 
+(* histories on one stream session (exchange / cancel / close in any order, any outcomes, cancel POSTs
+   that raise included): at most ONE cancel request ever leaves the client; after the first cancel()
+   nothing at all is sent; each exchange() sends at most 2, each cancel() at most 1, close() nothing *)
+Theorem C38_session_cancel_at_most_once : forall ops st fs ext_ok,
+  (cancel_sends (hist_run st ops fs ext_ok) <= 1)%nat.
+Proof. exact hist_cancel_once. Qed.
+Print Assumptions C38_session_cancel_at_most_once.
+
+Theorem C38_session_silent_after_cancel : forall pre post st fs ext_ok,
+  exists fs', hist_run st (pre ++ HCancel :: post) fs ext_ok =
+              hist_run st (pre ++ [HCancel]) fs ext_ok ++ hist_run SCancelled post fs' ext_ok /\
+              total_sends (hist_run SCancelled post fs' ext_ok) = 0%nat.
+Proof. exact hist_nothing_after_cancel. Qed.
+Print Assumptions C38_session_silent_after_cancel.
+
+Theorem C38_session_each_operation : forall ops st fs ext_ok,
+  Forall (fun e => (xsends (snd e) <= match fst e with HExchange => 2 | HCancel => 1 | HClose => 0 end)%nat)
+         (hist_run st ops fs ext_ok).
+Proof. exact hist_each_op. Qed.
+Print Assumptions C38_session_each_operation.
+
 (* without a retry configuration every request is sent exactly once *)
 Theorem C38_no_config_single_send : forall jit fs, sends (post_with_retry None jit fs) = 1%nat.
 Proof. exact post_without_config_once. Qed.
@@ -117,3 +138,13 @@ Example C38_ex_after_cancel :
   xsends (exchange (cancel_state_after SLive) [OResp 200 RAabsent] true) = 0%nat /\
   xsends (cancel (cancel_state_after SLive) []) = 0%nat.
 Proof. split; reflexivity. Qed.
+(* a cancel whose POST times out, then two more cancels and an exchange: one request in total *)
+Example C38_ex_history :
+  run_hist (SLive, [HCancel; HCancel; HExchange; HCancel; HClose], [OTimeout; OResp 200 RAabsent], true) =
+  [(1, (10, 0)); (0, (10, 0)); (0, (11, 0)); (0, (10, 0)); (0, (10, 0))]%N.
+Proof. vm_compute; reflexivity. Qed.
+(* exchange that fails, exchange again (a new request), then cancel *)
+Example C38_ex_history2 :
+  run_hist (SLive, [HExchange; HExchange; HCancel], [OResp 502 RAabsent; OResp 413 RAabsent; OConnErr; ODisconnect], true) =
+  [(1, (0, 502)); (2, (2, 0)); (1, (10, 0))]%N.
+Proof. vm_compute; reflexivity. Qed.
